@@ -3,8 +3,81 @@ open Model
 type string = Stdlib.String.t
 open Util
 
-let case_begin () = ()
-let line (kind : string) (rest : string list) (raw : string) = ignore (kind, rest, raw)
+(* ---- per-case configuration and regex oracle ---- *)
+let rewrites : (string, rewrite) Hashtbl.t = Hashtbl.create 16
+let rxids : (string, int) Hashtbl.t = Hashtbl.create 16
+let rxnames : (int, string) Hashtbl.t = Hashtbl.create 16
+let oracle : (string * string, string) Hashtbl.t = Hashtbl.create 64   (* (id, subject hex) -> answer *)
+let oracle_misses : string list ref = ref []
+
+let rxid (name : string) : n =
+  match Hashtbl.find_opt rxids name with
+  | Some i -> n_of_int i
+  | None ->
+      let i = Hashtbl.length rxids in
+      Hashtbl.add rxids name i; Hashtbl.add rxnames i name; n_of_int i
+
+(* the regex engine as seen by the model: the answers the implementation logged *)
+let rx (id : n) (subject : n list) : (z * z) list option =
+  let name = match Hashtbl.find_opt rxnames (int_of_n id) with Some s -> s | None -> "?" in
+  let key = (name, hex_of_bytes subject) in
+  match Hashtbl.find_opt oracle key with
+  | None -> oracle_misses := (name ^ " " ^ snd key) :: !oracle_misses; None
+  | Some "nomatch" -> None
+  | Some "match" -> Some []
+  | Some ans ->
+      Some (List.map (fun p -> match String.split_on_char ':' p with
+                               | [ a; b ] -> (z_of_int (int_of_string a), z_of_int (int_of_string b))
+                               | _ -> (z_of_int (-1), z_of_int (-1)))
+              (String.split_on_char ',' ans))
+
+let flush_misses opidx =
+  List.iter (fun m -> pr "obs %d oracle-miss %s\n" opidx m) (List.rev !oracle_misses);
+  oracle_misses := []
+
+let split_list (s : string) : string list = if s = "-" || s = "" then [] else String.split_on_char ',' s
+let kv (toks : string list) : (string * string) list =
+  List.filter_map (fun t -> match String.index_opt t '=' with
+      | Some i -> Some (String.sub t 0 i, String.sub t (i + 1) (String.length t - i - 1))
+      | None -> None) toks
+let get kvs k d = match List.assoc_opt k kvs with Some v -> v | None -> d
+
+let tlv_of_tok (tk : string) : tlv =
+  match String.index_opt tk ':' with
+  | Some i -> { tlv_t = n_of_int (int_of_string (String.sub tk 0 i)); tlv_v = bytes_of_hex (String.sub tk (i + 1) (String.length tk - i - 1)) }
+  | None -> failwith ("tlv " ^ tk)
+
+let parse_rewrite (name : string) (kvs : (string * string) list) : rewrite =
+  let rm = match get kvs "rm" "-" with "-" -> None | l -> Some (List.map (fun x -> n_of_int (int_of_string x)) (split_list l)) in
+  let rmv = match get kvs "rmv" "-" with "-" -> None
+    | l -> Some (List.map (fun x -> match String.split_on_char ':' x with
+                                    | [ v; t ] -> (n_of_int (int_of_string v), n_of_int (int_of_string t))
+                                    | _ -> failwith "rmv") (split_list l)) in
+  let mods = List.mapi (fun k x -> match String.split_on_char ':' x with
+      | [ t; repl ] -> { mod_t = n_of_int (int_of_string t); mod_vendor = N0; mod_rx = rxid (Printf.sprintf "rw:%s:mod:%d" name k); mod_repl = bytes_of_hex repl }
+      | _ -> failwith "mod") (split_list (get kvs "mod" "-")) in
+  let modvs = List.mapi (fun k x -> match String.split_on_char ':' x with
+      | [ v; t; repl ] -> { mod_t = n_of_int (int_of_string t); mod_vendor = n_of_int (int_of_string v); mod_rx = rxid (Printf.sprintf "rw:%s:modv:%d" name k); mod_repl = bytes_of_hex repl }
+      | _ -> failwith "modv") (split_list (get kvs "modv" "-")) in
+  { rw_whitelist = (get kvs "wl" "0" = "1"); rw_rm = rm; rw_rmv = rmv;
+    rw_add = List.map tlv_of_tok (split_list (get kvs "add" "-"));
+    rw_mod = mods; rw_modv = modvs;
+    rw_sup = List.map tlv_of_tok (split_list (get kvs "sup" "-")) }
+
+let case_begin () =
+  Hashtbl.reset rewrites; Hashtbl.reset rxids; Hashtbl.reset rxnames; Hashtbl.reset oracle; oracle_misses := []
+
+let line (kind : string) (rest : string list) (raw : string) =
+  ignore raw;
+  match kind, rest with
+  | "cfg", "rewrite" :: name :: toks -> Hashtbl.replace rewrites name (parse_rewrite name (kv toks))
+  | _ -> ()
+
+(* oracle lines of the implementation output for this case *)
+let load_oracle (lines : string list) =
+  List.iter (fun l -> match split_ws l with
+      | [ "oracle"; id; subj; ans ] -> Hashtbl.replace oracle (id, subj) ans
+      | _ -> ()) lines
 
 (* ---- C09 ---- *)
 let srv_of_tok (t : string) : srv =
@@ -128,9 +201,26 @@ let op_ser opidx impl toks =
        | _ -> ())
   | _ -> ()
 
+(* ---- rewrite engine ---- *)
+let op_rewrite opidx impl toks =
+  match toks with
+  | name :: _code :: attrs ->
+      let rw = Hashtbl.find_opt rewrites name in
+      let l = tlvs_of_tokens attrs in
+      (match dorewrite rx l rw with
+       | None -> pr "obs %d rewrite 0\n" opidx
+       | Some l' -> pr "obs %d rewrite 1%s\n" opidx (str_of_tlvs l'));
+      flush_misses opidx;
+      (match impl, rw with
+       | Some ("rewrite" :: "1" :: iattrs), Some w ->
+           spec opidx "C01_rewrite_untouched" (spec_rewrite_untouched w l (tlvs_of_tokens iattrs)) ""
+       | _ -> ())
+  | _ -> ()
+
 let run (opidx : int) (impl : string list option) (toks : string list) : bool =
   match toks with
   | "choose" :: rest -> op_choose opidx impl rest; true
+  | "rewrite" :: rest -> op_rewrite opidx impl rest; true
   | "parse" :: rest -> op_parse opidx impl rest; true
   | "ser" :: rest -> op_ser opidx impl rest; true
   | "recrypt" :: rest -> op_recrypt opidx impl rest; true
